@@ -211,6 +211,7 @@ class Sx:
         # enter(callee body) -> bool: calls of crate functions that are stepped into (every returning path of the callee continues
         # the caller's path), so that a rule reads the same value whether a clause sits in a helper or in its caller
         self.enter = enter
+        self.items = {}          # next-call node -> item of an adaptor chain left as it is (see pulled)
 
     # ---------------------------------------------------------------- values
     def const(self, o):
@@ -265,6 +266,7 @@ class Sx:
         if f == '0' and last in GOODV:
             # payload: canonical form below the payload-preserving adaptors
             while v[0] == 'call' and v[1] in SX_LOOK and v[3]: v = sx_strip(v[3][0])
+            if v in self.items: return self.items[v]
             return ('field', v, '0', 'payload')
         return ('field', v, f, of)
 
@@ -415,13 +417,25 @@ class Sx:
     def apply(self, f, args, st):
         """value of calling a closure value on `args` if its body has exactly one returning path"""
         f = sx_strip(f)
-        if f[0] != 'closure' or self.depth >= 3: return None
-        cb = self.F.bodies.get(f[1])
-        if cb is None: return None
-        envv = ('agg', 'closure-env', tuple(str(i) for i in range(len(f[2]))), tuple(f[2]))
-        if cb.locals[1].lstrip().startswith('&'): envv = ('ref', envv)
-        env = {1: envv}
-        for i, a in enumerate(args): env[2 + i] = a
+        if self.depth >= 3: return None
+        if f[0] == 'const':
+            # a function passed by name (`.map_err(as_objective_error)`, `.map(Some)`): a function of the crate is evaluated like a
+            # closure without captures, the constructor of an Option / Result variant builds that variant
+            nm = f[1].strip(); nm = nm[6:] if nm.startswith('const ') else nm
+            last = strip_generic_args(nm).split('::')[-1]
+            if last in ('Some', 'Ok', 'Err') and re.search(r'(option::Option|result::Result)', nm) and len(args) == 1:
+                return ('agg', ('std::option::Option::' if last == 'Some' else 'std::result::Result::') + last, ('0',), (args[0],))
+            cb = self.F.bodies.get(nm) or self.F.bodies.get(strip_generic_args(nm))
+            if cb is None or cb.kind != 'fn' or cb is self.b or cb.argc != len(args): return None
+            env = {1 + i: a for i, a in enumerate(args)}
+        elif f[0] == 'closure':
+            cb = self.F.bodies.get(f[1])
+            if cb is None: return None
+            envv = ('agg', 'closure-env', tuple(str(i) for i in range(len(f[2]))), tuple(f[2]))
+            if cb.locals[1].lstrip().startswith('&'): envv = ('ref', envv)
+            env = {1: envv}
+            for i, a in enumerate(args): env[2 + i] = a
+        else: return None
         try:
             ps = Sx(self.ctx, cb, self.o, depth=self.depth + 1, max_paths=60, enter=self.enter).run(0, env, assume=st.assume)
         except SxLimit:
@@ -559,13 +573,13 @@ class Sx:
                     r = self.apply(args[1], [self.payload(oo)], st)
                     if r is not None: return r
                 if g is False: return oo
-            elif meth == 'or' and len(args) == 2 and isopt:
+            elif meth == 'or' and len(args) == 2:
                 if g is True: return oo
                 if g is False: return args[1]
-            elif meth == 'or_else' and len(args) == 2 and isopt:
+            elif meth == 'or_else' and len(args) == 2:
                 if g is True: return oo
                 if g is False:
-                    r = self.apply(args[1], [], st)
+                    r = self.apply(args[1], [] if isopt else [self.field(oo, '0', 'Err')], st)
                     if r is not None: return r
             elif meth in ('filter', 'is_some_and', 'is_none_or', 'is_ok_and') and len(args) == 2:
                 if g is True:
@@ -593,19 +607,19 @@ class Sx:
         if item in SX_IDENT and args:
             return self.deref(args[0], st) if args[0][0] in ('ref', 'lref') else args[0]
         tr = ri.get('trait') or ''
+        if args and tr == 'std::iter::Iterator' and item == 'next': self.pulled(node, st)
         if args and ((tr == 'std::iter::Iterator' and item in SX_CONSUMERS) or (tr.endswith('FromIterator') and item == 'from_iter') or (tr.endswith('Extend') and item == 'extend' and len(args) == 2)):
             self.pipeline(node, args[1] if item == 'extend' else args[0], st)
         return node
 
-    def pipeline(self, node, it, st):
-        """an iterator pipeline `base.map(f).filter(g)...` consumed by a call the normal form does not turn into a loop (unzip,
-        partition, max_by_key, a collect into an unknown collection, ...): the closures are applied to ONE generic item and the
-        result is recorded as event ('yield', value | None, bb, flags, consumer name, base)"""
+    def chain(self, node, it, st):
+        """an adaptor chain `base.map(f).filter(g)...` applied to ONE generic item of `base`: (value | None, flags, base, whether a
+        function -- closure or function passed by name -- was applied)"""
         chain = []; cur = sx_strip(it)
         while cur[0] == 'call' and cur[3] and cur[1] in SX_ADAPTORS:
             chain.append(cur); cur = sx_strip(cur[3][0])
         chain.reverse()
-        if not any(c[1] in SX_CLOSURE_ADAPTORS for c in chain): return
+        if not any(c[1] in SX_CLOSURE_ADAPTORS for c in chain): return None, (), cur, False
         v = ('field', ('call', 'next', '<pipeline item>', (cur,), node[4], node[5]), '0', 'payload'); flags = []
         for c in chain:
             k = c[1]
@@ -633,7 +647,20 @@ class Sx:
                     v = self.payload(r)
             else:
                 flags.append('restricted:' + k); v = None
-        st.events.append(('yield', v, node[4], tuple(flags), node[2], cur))
+        return v, tuple(flags), cur, True
+
+    def pipeline(self, node, it, st):
+        """an iterator pipeline consumed by a call the normal form does not turn into a loop (unzip, partition, max_by_key, a collect
+        into an unknown collection, ...): recorded as event ('yield', value | None, bb, flags, consumer name, base)"""
+        v, flags, cur, fn = self.chain(node, it, st)
+        if fn: st.events.append(('yield', v, node[4], flags, node[2], cur))
+
+    def pulled(self, node, st):
+        """`it.next()` on an adaptor chain the normal form left as it is (a function passed by name instead of a closure:
+        `.filter_map(tagged_var)`): the item, when there is one, is the chain applied to an item of the base"""
+        a = node[3][0]; it = self.deref(a, st) if a[0] in ('ref', 'lref') else a
+        v, flags, cur, fn = self.chain(node, it, st)
+        if fn and v is not None: self.items[node] = v
 
     # ---------------------------------------------------------------- statements
     def stmt(self, s, st):
@@ -1716,7 +1743,15 @@ def recovery_rules(ctx, rule, names_rule, b, prefix_const, table, elem_adt, name
         done = [p for p in ps if p.end == 'stop']
         if not done or any(not sx_elems(p) for p in done): skipped.append(nextc.bb)
         si = ctx.S.slice_operand(b, nextc.args[0])
-        if not si.has_field(MPS, table) or any(x.item in RESTRICTING and 'Iterator' in (x.trait or '') for x in si.call_objs): restricted.append(nextc.bb)
+        def keeps_all(x):
+            # `filter(f)` / `filter_map(f)` with a function passed by name (a closure is part of the loop in the normal form) that lets
+            # every item through when every name parses -- on the side that is only reached in that case
+            if not only_recovery or x.item not in ('filter', 'filter_map') or len(x.args) < 2 or x.args[1]['k'] != 'const': return False
+            sx = Sx(ctx, b, ParseCase('Some')); st0 = SxState(0, {}, [], {}, {}); it = ('undef', -7)
+            r = sx.apply(('const', x.args[1]['v']), [it] if x.item == 'filter_map' else [('ref', it)], st0)
+            if r is None: return False
+            return (sx.good(r, st0) is True) if x.item == 'filter_map' else (sx.conc(r, st0) is True)
+        if not si.has_field(MPS, table) or any(x.item in RESTRICTING and 'Iterator' in (x.trait or '') and not keeps_all(x) for x in si.call_objs): restricted.append(nextc.bb)
     for e in yields:
         if e[1] is None or not elems_in(e[1]) or any(f in ('skipped', 'maybe-skipped') for f in e[3]): skipped.append(e[2])
         if any(f.startswith('restricted') for f in e[3]) or not any(f == table and o.endswith('parser::Mps') for o, f in sx_fields(e[5])) or any(c[1] in RESTRICTING for c in sx_calls(e[5])): restricted.append(e[2])
